@@ -41,26 +41,257 @@ def _split_args(s):
     return parts
 
 
+def _call_span(s, start):
+    """s[start] is just behind an opening parenthesis: index just behind its closing one."""
+    depth, j = 1, start
+    while j < len(s) and depth:
+        depth += s[j] in "([{"
+        depth -= s[j] in ")]}"
+        j += 1
+    return j
+
+
 def canon_eq(s):
-    """`T::eq(a, b)` (PartialEq::eq of two values of one type) is symmetric: write its operands in sorted order, so that
-    `a == b` and `b == a` read the same.  Nothing else is reordered — `covers(a, b)` keeps its argument order."""
+    """`T::eq(a, b)` (PartialEq::eq of two values of one type) is symmetric and its meaning does not depend on which
+    impl path the compiler resolved it through: it reads `eq(a, b)` with the operands in sorted order, so that `a == b`
+    and `b == a` read the same; `ne` reads `!eq`.  Nothing else is reordered — `covers(a, b)` keeps its argument order."""
     out = ""
     i = 0
     while True:
-        m = re.search(r"\b([\w:]+)::(eq|ne)\(", s[i:])
+        m = re.search(r"(?<![\w:])((?:[\w]+::)+)(eq|ne)\(", s[i:])
         if not m:
             return out + s[i:]
         start = i + m.end()
-        depth, j = 1, start
-        while j < len(s) and depth:
-            depth += s[j] in "([{"
-            depth -= s[j] in ")]}"
-            j += 1
+        j = _call_span(s, start)
         args = [canon_eq(a) for a in _split_args(s[start:j - 1])]
         if len(args) == 2:
             args.sort()
-        out += s[i:i + m.start()] + "%s::%s(%s)" % (m.group(1), m.group(2), ", ".join(args))
+        out += s[i:i + m.start()] + "%seq(%s)" % ("!" if m.group(2) == "ne" else "", ", ".join(args))
         i = j
+
+
+# ---------------------------------------------------------------------------------------------
+# The decision functions are read by the abstract interpreter, extended here by the documented contracts of a few more
+# std combinators, and private / accessor functions of the crate are interpreted through (what a helper is called and
+# where its body lives is not part of the decision).  The only things left opaque are the tests the specification
+# itself is written in (Prefix::covers, equality of AS numbers and key identifiers, the per-kind decision functions).
+
+from engine.absint import V, Lin, mk_const, mk_obj, show as _show
+
+
+def _opt_variant(v):
+    return v is not None and v.k == "variant" and v.vname in ("Some", "None")
+
+
+class _Interp(absint.Interp):
+    def inline_call(self, st, callee, args):
+        # as absint.Interp.inline_call, the sub-interpreter being of this class
+        sub = type(self)(self.facts, self.assume, self.inline, self.max_paths, self.max_visits, sym_names=self.sym_names)
+        sub._fresh = self._fresh + 1000
+        s0 = st.copy()
+        s0.locals = {}
+        for i, a in enumerate(args):
+            s0.locals[i + 1] = a
+        s0.visits = {}
+        sub.explore(callee, s0, 0)
+        out = []
+        for p in sub.paths:
+            s2 = st.copy()
+            s2.zone = p.zone
+            s2.effects = p.effects
+            s2.conds = p.conds
+            if p.outcome[0] == "return":
+                out.append((s2, p.outcome[1]))
+            else:
+                s2.trace.append(("inlined %s %s" % (callee.name, p.outcome[0]), p.outcome[1]))
+                out.append((s2, ("panic", p.outcome)))
+        self.imprecise.extend(sub.imprecise)
+        self._fresh = sub._fresh
+        return out
+
+    def _variant_names(self, objv, pl, body):
+        names = super()._variant_names(objv, pl, body)
+        if not names:
+            # the abstract value lost its type (a field of a partly refined object): the place still has it
+            nonderef = [p for p in pl["p"] if p[0] != "d"]
+            ty = None
+            if not nonderef:
+                ty = body.local_ty(pl["l"])
+            elif nonderef[-1][0] == "f" and len(nonderef[-1]) > 3:
+                ty = nonderef[-1][3]
+            if ty:
+                names = super()._variant_names(V("obj", path=objv.path, ty=ty), pl, body)
+        return names
+
+    def _split_option(self, st, body, op, v):
+        """[(state, Some/None variant value)] for an Option-typed abstract value."""
+        if _opt_variant(v):
+            return [(st, v)]
+        if v is None or v.k != "obj":
+            return None
+        out = []
+        for vidx, vname in ((0, "None"), (1, "Some")):
+            s2 = st.copy()
+            s2.conds.append(("%s is %s" % (v.path, vname), True))
+            if op is not None:
+                self._refine_obj(s2, body, op, v, vidx, vname)
+            out.append((s2, V("variant", adt="std::option::Option", vidx=vidx, vname=vname, fields={}, path=v.path)))
+        return out
+
+    @staticmethod
+    def _payload(v):
+        p = (v.fields or {}).get(0)
+        if p is None and v.path:
+            p = mk_obj("%s↓Some.0" % v.path)
+        return p
+
+    def _bool_fork(self, st, r):
+        """[(state, truth)] of an abstract bool."""
+        ib = self.as_int(st, r, "bool")
+        if ib is None or ib.lin is None:
+            return None
+        return list(self.fork_cmp(st, "eq", ib.lin, Lin.const(1)))
+
+    def binop(self, st, body, rv, dest_ty):
+        # `a & b`, `a | b`, `a ^ b` on bools: the value tables of the connectives (both operands are already evaluated)
+        if rv.get("bop") in ("BitAnd", "BitOr", "BitXor") and rv.get("oty") == "bool":
+            fn = {"BitAnd": lambda x, y: x and y, "BitOr": lambda x, y: x or y, "BitXor": lambda x, y: x != y}[rv["bop"]]
+            fa = self._bool_fork(st, self.operand(st, body, rv["a"]))
+            if fa is not None:
+                out = []
+                for s2, ta in fa:
+                    fb = self._bool_fork(s2, self.operand(s2, body, rv["b"]))
+                    if fb is None:
+                        return super().binop(st, body, rv, dest_ty)
+                    for s3, tb in fb:
+                        out.append((s3, mk_const(1 if fn(ta, tb) else 0, "bool")))
+                return out
+        return super().binop(st, body, rv, dest_ty)
+
+    def summary(self, st, body, k, res, name, trait, args, t, bb):
+        krate = k.get("res_krate") or k.get("krate")
+        std = krate in ("core", "alloc", "std")
+        owner = res.rsplit("::", 1)[0]
+        is_opt = owner.startswith("std::option::Option") or owner.startswith("core::option::Option")
+        ops = (t or {}).get("args") or [None] * len(args)
+        if std and is_opt and name in ("is_some", "is_none", "unwrap_or", "unwrap_or_default") and args and args[0] is not None \
+                and args[0].k == "ref":
+            # `(&opt).is_some()`: the method reads the value behind the reference
+            tgt = self.read_target(st, args[0].target, body)
+            if tgt is not None and tgt.k in ("variant", "obj"):
+                return super().summary(st, body, k, res, name, trait, [tgt] + list(args[1:]), dict(t or {}, args=[{}] + list(ops[1:])), bb)
+        if trait == "std::ops::Try" and name == "branch" and "option::Option<" in res and len(args) == 1 and args[0] is not None \
+                and args[0].k == "obj":
+            # `opt?`: Some(x) continues with x, None leaves with None
+            out = []
+            for s2, v in self._split_option(st, body, ops[0], args[0]):
+                if v.vname == "Some":
+                    v = V("variant", adt="std::option::Option", vidx=1, vname="Some", fields={0: self._payload(v)}, path=v.path)
+                out.extend(super().summary(s2, body, k, res, name, trait, [v], t, bb))
+            return out
+        if std and is_opt and name in ("or", "xor", "and", "zip") and len(args) == 2:
+            ca = self._split_option(st, body, ops[0], args[0])
+            out = []
+            none_v = V("variant", adt="std::option::Option", vidx=0, vname="None", fields={})
+            for s2, va in ca or []:
+                cb = self._split_option(s2, body, ops[1], args[1])
+                if cb is None:
+                    out = None
+                    break
+                for s3, vb in cb:
+                    sa, sb = va.vname == "Some", vb.vname == "Some"
+                    full = lambda v: V("variant", adt="std::option::Option", vidx=1, vname="Some", fields={0: self._payload(v)})
+                    if name == "or":
+                        r = full(va) if sa else (full(vb) if sb else none_v)
+                    elif name == "and":
+                        r = (full(vb) if sb else none_v) if sa else none_v
+                    elif name == "xor":
+                        r = full(va) if sa and not sb else (full(vb) if sb and not sa else none_v)
+                    else:
+                        r = V("variant", adt="std::option::Option", vidx=1, vname="Some",
+                              fields={0: V("tuple", fields=[self._payload(va), self._payload(vb)])}) if sa and sb else none_v
+                    out.append((s3, r))
+            if out:
+                return out
+        if std and is_opt and name == "is_none_or" and len(args) == 2:
+            # None => true, Some(x) => f(x)
+            return super().summary(st, body, k, res, "map_or", trait, [args[0], mk_const(1, "bool"), args[1]], t, bb)
+        if std and is_opt and name == "filter" and len(args) == 2 and args[0].k in ("variant", "obj"):
+            # None => None, Some(x) => if p(&x) { Some(x) } else { None }
+            cases = self._split_option(st, body, ops[0], args[0])
+            if cases is not None:
+                none_v = V("variant", adt="std::option::Option", vidx=0, vname="None", fields={})
+                out = []
+                for s2, v in cases:
+                    if v.vname == "None":
+                        out.append((s2, none_v))
+                        continue
+                    pay = self._payload(v)
+                    for s3, r in self.apply_fn(s2, args[1], [pay]):
+                        if isinstance(r, tuple):
+                            out.append((s3, r))
+                            continue
+                        fk = self._bool_fork(s3, r)
+                        if fk is None:
+                            return None
+                        for s4, truth in fk:
+                            out.append((s4, V("variant", adt="std::option::Option", vidx=1, vname="Some", fields={0: pay}) if truth else none_v))
+                return out
+        if std and trait == "std::cmp::PartialEq" and name in ("eq", "ne") and len(args) == 2 and "option::Option<" in res:
+            # derived equality of Option: equal variants with equal contents
+            vals = [self.read_target(st, a.target, body) if a is not None and a.k == "ref" else a for a in args]
+            if any(_opt_variant(v) for v in vals) and all(v is not None and v.k in ("variant", "obj") for v in vals):
+                out = []
+                ca = self._split_option(st, body, None, vals[0])
+                for s2, va in ca or []:
+                    for s3, vb in self._split_option(s2, body, None, vals[1]) or []:
+                        if va.vname != vb.vname:
+                            out.append((s3, mk_const(0 if name == "eq" else 1, "bool")))
+                        elif va.vname == "None":
+                            out.append((s3, mk_const(1 if name == "eq" else 0, "bool")))
+                        else:
+                            pa, pb = self._payload(va), self._payload(vb)
+                            if pa is None or pb is None:
+                                return None
+                            ia, ib = self.as_int(s3, pa), self.as_int(s3, pb)
+                            if pa.k == "int" and pb.k == "int" and ia is not None and ib is not None and ia.lin is not None and ib.lin is not None:
+                                for s4, truth in self.fork_cmp(s3, name, ia.lin, ib.lin):
+                                    out.append((s4, mk_const(1 if truth else 0, "bool")))
+                            else:
+                                out.append((s3, mk_obj("PartialEq::%s(%s, %s)" % (name, _show(pa), _show(pb)), "bool")))
+                if out:
+                    return out
+        return super().summary(st, body, k, res, name, trait, args, t, bb)
+
+
+def _atom_names(want):
+    """Functions the specification rows mention by name: they stay opaque."""
+    names = set()
+    for conds, zone, oc_ in want:
+        for txt in (zone, oc_):
+            names.update(re.findall(r"((?:\w+::)+\w+)\(", txt))
+    return names
+
+
+def interpret(f, fn, want):
+    """Paths of `fn` with every crate function interpreted through except the tests `want` is written in and
+    (in)equality impls."""
+    keep = _atom_names(want)
+
+    def inline(name):
+        if name == fn or name not in f.bodies:
+            return False
+        if re.search(r"::(eq|ne)$", name) or "PartialEq" in name:
+            return False
+        sh = short(name)
+        return not any(sh == k or name.endswith("::" + k) for k in keep)
+    it = _Interp(f, inline=inline)
+    try:
+        return it.run(fname=fn), it, None
+    except absint.Unsupported as e:
+        return None, it, str(e)
+    except RecursionError:
+        return None, it, "recursion while interpreting"
 
 
 def table_of(paths, body=None):
@@ -79,7 +310,7 @@ def _parse_zone(z):
     out = []
     rest = z
     while rest:
-        m = re.match(r"^(.*?)∈\[(\d+),(\d+)\](?:, |$)", rest)
+        m = re.match(r"^(.*?)∈\[(-?\d+),(-?\d+)\](?:, |$)", rest)
         if not m:
             return None
         out.append((m.group(1), int(m.group(2)), int(m.group(3))))
@@ -87,67 +318,207 @@ def _parse_zone(z):
     return out
 
 
-def tables_agree(got, want):
-    """Two case tables denote the same decision function: on every combination of the case distinctions (`x is Some`
-    / `x is None`, the payload's variant) and of truth values of the tests either table mentions, both give one and the
-    same answer.  The order in which a function looks at independent, effect-free tests does not matter; what it
-    answers does.  A test the specification does not mention makes the tables disagree."""
+def _lit(text):
+    """'!!x' -> (x, negated?)"""
+    neg = False
+    while text.startswith("!"):
+        text, neg = text[1:], not neg
+    return text, neg
+
+
+_OTHER = "«any other variant»"
+
+
+def rows_of_paths(paths, body):
+    """Rows [(conds, zone, result)] of interpreter paths, in the vocabulary of the specification tables; conds keep
+    the order in which the function looked.  `X is another variant` (the otherwise edge of a match) becomes
+    `X not in {variants the same match lists}`: the sibling paths — same decisions up to that match — name them."""
+    nm = lambda x: canon_eq(K.alpha(x, body))
+    raw = []
+    for p in paths:
+        conds = []
+        for c in p.conds:
+            m = re.match(r"^(.*) is (\w+(?: \w+)*)$", nm(c[0]))
+            if not m or c[1] is not True:
+                return None
+            conds.append((m.group(1), m.group(2)))
+        zs = _parse_zone(nm(p.zone.describe()))
+        if zs is None:
+            return None
+        raw.append((conds, zs, nm(outcome_str(p.outcome))))
+    rows = []
+    for conds, zs, oc_ in raw:
+        cs = []
+        for j, (x, v) in enumerate(conds):
+            if v == "another variant":
+                listed = {q[0][j][1] for q in raw if len(q[0]) > j and q[0][:j] == conds[:j] and q[0][j][0] == x
+                          and q[0][j][1] != "another variant"}
+                cs.append((x, ("not", frozenset(listed))))
+            else:
+                cs.append((x, ("is", v)))
+        rows.append((cs, zs, oc_))
+    return rows
+
+
+def rows_of_spec(want):
+    listed = {}
+    parsed = []
+    for conds, zone, oc_ in want:
+        cs = []
+        for c in conds:
+            m = re.match(r"^(.*) is (\w+(?: \w+)*)$", canon_eq(c))
+            cs.append((m.group(1), m.group(2)))
+            if m.group(2) != "another variant":
+                listed.setdefault(m.group(1), set()).add(m.group(2))
+        parsed.append((cs, _parse_zone(canon_eq(zone)), canon_eq(oc_)))
+    return [([(x, ("not", frozenset(listed.get(x, ()))) if v == "another variant" else ("is", v)) for x, v in cs], zs, oc_)
+            for cs, zs, oc_ in parsed]
+
+
+def _universe(f, body, subject, mentioned):
+    """The variants a case distinction on `subject` ranges over."""
+    if mentioned <= {"Some", "None"}:
+        return ["None", "Some"]
+    m = re.match(r"^%(\d+)$", subject)
+    if m and body is not None and int(m.group(1)) <= body.arg_count:
+        ty = (body.local_ty(int(m.group(1))) or "").lstrip("&").replace("mut ", "").strip()
+        adt = f.adts.get(re.sub(r"<.*$", "", ty))
+        if adt and adt.get("kind") == "Enum":
+            return [v["name"] for v in adt["variants"]]
+    return sorted(mentioned) + [_OTHER]
+
+
+def same_decision(f, body, got, want):
+    """Two row sets denote the same decision function: on every combination of the case distinctions (`x is Some` /
+    `x is None`, the payload's variant) and of truth values of the opaque tests, both give one and the same answer.
+    The order in which a function looks at independent, effect-free tests does not matter, nor whether it looks twice;
+    what it answers does.  A test the specification does not mention makes the tables disagree.  -> (ok, why)"""
     import itertools
 
-    def parse(rows):
-        out = []
-        for conds, zone, oc_ in rows:
-            cs = {}
-            for c in conds:
-                m = re.match(r"^(.*) is (\w+(?: \w+)*)$", c)
-                if not m:
-                    return None
-                cs[m.group(1)] = m.group(2)
-            zs = _parse_zone(zone)
-            if zs is None or not oc_.startswith("return "):
-                return None
-            out.append((cs, zs, oc_[len("return "):]))
-        return out
-    pg, pw = parse(got), parse(want)
-    if pg is None or pw is None:
-        return False
-
     def atoms(rows):
-        return {a for _, zs, _ in rows for a, _, _ in zs} | {r for _, _, r in rows if r not in ("0", "1")}
-    if not atoms(pg) <= atoms(pw):
-        return False
-    subjects = {}
-    for cs, _, _ in pg + pw:
-        for k, v in cs.items():
-            subjects.setdefault(k, set()).add(v)
-    if any(k not in {k2 for cs, _, _ in pw for k2 in cs} for k in subjects):
-        return False
-    names = sorted(subjects)
-    ats = sorted(atoms(pw))
-    if len(names) + len(ats) > 12:
-        return False
+        out = set()
+        for _, zs, r in rows:
+            for a, lo, hi in zs:
+                out.add(_lit(a)[0])
+            if r.startswith("return ") and r[7:] not in ("0", "1"):
+                out.add(_lit(r[7:])[0])
+        return out
+    for _, zs, _ in got + want:
+        for a, lo, hi in zs:
+            if not (0 <= lo <= hi <= 1):
+                return False, "a non-boolean constraint %s∈[%s,%s]" % (a, lo, hi)
+    extra = atoms(got) - atoms(want)
+    if extra:
+        return False, "decides by something the specification does not mention: %s" % sorted(extra)[:3]
+    mentioned = {}
+    for cs, _, _ in got + want:
+        for x, (kind, v) in cs:
+            mentioned.setdefault(x, set()).update([v] if kind == "is" else v)
+    spec_subjects = {x for cs, _, _ in want for x, _ in cs}
+    if set(mentioned) - spec_subjects:
+        return False, "distinguishes cases of %s, which the specification does not" % sorted(set(mentioned) - spec_subjects)[:3]
+    names = sorted(mentioned)
+    ats = sorted(atoms(want))
+    unis = [_universe(f, body, n, mentioned[n]) for n in names]
+    n_cases = 2 ** len(ats)
+    for u in unis:
+        n_cases *= len(u)
+    if n_cases > 20000:
+        return False, "too many cases"
 
     def answer(rows, case, truth):
         res = set()
         for cs, zs, r in rows:
-            if any(case.get(k) != v for k, v in cs.items()):
+            if any((case[x] != v) if kind == "is" else (case[x] in v) for x, (kind, v) in cs):
                 continue
-            if any(not (lo <= truth[a] <= hi) for a, lo, hi in zs):
+            ok = True
+            for a, lo, hi in zs:
+                a, neg = _lit(a)
+                val = truth[a] ^ neg
+                if not (lo <= val <= hi):
+                    ok = False
+                    break
+            if not ok:
                 continue
-            res.add(int(r) if r in ("0", "1") else truth[r])
+            if not r.startswith("return "):
+                res.add(r)
+            elif r[7:] in ("0", "1"):
+                res.add(int(r[7:]))
+            else:
+                a, neg = _lit(r[7:])
+                res.add(truth[a] ^ neg)
         return res
-    for vals in itertools.product(*[sorted(subjects[n]) for n in names]):
+    for vals in itertools.product(*unis):
         case = dict(zip(names, vals))
         for bits in itertools.product((0, 1), repeat=len(ats)):
             truth = dict(zip(ats, bits))
-            a, w = answer(pg, case, truth), answer(pw, case, truth)
+            a, w = answer(got, case, truth), answer(want, case, truth)
             if len(w) != 1 or a != w:
-                return False
-    return True
+                return False, {"case": case, "tests": truth, "answers": sorted(map(str, a)), "specified": sorted(map(str, w))}
+    return True, None
 
 
 def spec_table(rows):
     return {(tuple(sorted(canon_eq(c) for c in conds)), canon_eq(z), canon_eq(o)) for conds, z, o in rows}
+
+
+# %2 is the function's second parameter (the origin / router key / ASPA / payload item), whatever it is called
+_COV = "Prefix::covers(self.prefix↓Some.0, MaxLenPrefix::prefix(%2.prefix))"
+_AEQ = "Asn::eq(self.asn↓Some.0, %2.asn)"
+_KEQ = "KeyIdentifier::eq(self.ski↓Some.0, %2.key_identifier)"
+SPECS = {
+    SL + "PrefixFilter::drop_origin": {
+        (("self.asn is Some", "self.prefix is Some"), _COV + "∈[1,1]", "return " + _AEQ),
+        (("self.asn is Some", "self.prefix is Some"), _COV + "∈[0,0]", "return 0"),
+        (("self.asn is None", "self.prefix is Some"), "", "return " + _COV),
+        (("self.asn is Some", "self.prefix is None"), "", "return " + _AEQ),
+        (("self.asn is None", "self.prefix is None"), "", "return 0"),
+    },
+    SL + "BgpsecFilter::drop_router_key": {
+        (("self.asn is Some", "self.ski is Some"), _KEQ + "∈[1,1]", "return " + _AEQ),
+        (("self.asn is Some", "self.ski is Some"), _KEQ + "∈[0,0]", "return 0"),
+        (("self.asn is None", "self.ski is Some"), "", "return " + _KEQ),
+        (("self.asn is Some", "self.ski is None"), "", "return " + _AEQ),
+        (("self.asn is None", "self.ski is None"), "", "return 0"),
+    },
+    SL + "AspaFilter::drop_aspa": {
+        (("self.customer_asid is Some",), "", "return Asn::eq(self.customer_asid↓Some.0, %2.customer)"),
+        (("self.customer_asid is None",), "", "return 0"),
+    },
+    SL + "PrefixFilter::drop_payload": {
+        (("%2 is Origin",), "", "return PrefixFilter::drop_origin(self, %2↓Origin.0)"),
+        (("%2 is another variant",), "", "return 0"),
+    },
+    SL + "BgpsecFilter::drop_payload": {
+        (("%2 is RouterKey",), "", "return BgpsecFilter::drop_router_key(self, %2↓RouterKey.0)"),
+        (("%2 is another variant",), "", "return 0"),
+    },
+    SL + "AspaFilter::drop_payload": {
+        (("%2 is Aspa",), "", "return AspaFilter::drop_aspa(self, %2↓Aspa.0)"),
+        (("%2 is another variant",), "", "return 0"),
+    },
+}
+
+
+def table_verdict(f, fn, want):
+    """(ok, detail): the function `fn` computes the decision function given by the rows `want`."""
+    b = f.body(fn)
+    paths, it, err = interpret(f, fn, want)
+    if paths is None:
+        return False, {"analysable": False, "error": err}
+    got = table_of(paths, b)
+    wtab = spec_table(want)
+    if got == wtab and not it.imprecise:
+        return True, {"rows": len(got)}
+    rows = rows_of_paths(paths, b)
+    if rows is None:
+        ok, why_not = False, "rows outside the table vocabulary"
+    else:
+        ok, why_not = same_decision(f, b, rows, rows_of_spec(want))
+    ok = ok and not it.imprecise
+    return ok, {"rows": len(got), "same_decision_as_specified": ok, "differs": why_not,
+                "unexpected_rows": sorted(map(list, got - wtab))[:12], "missing_rows": sorted(map(list, wtab - got)),
+                "imprecision": it.imprecise}
 
 
 def run(ctx):
@@ -165,57 +536,18 @@ def run(ctx):
     check_covers_family(ctx, f)
 
     # ---- C15.b decision tables ---------------------------------------------------
-    # %2 is the function's second parameter (the origin / router key / ASPA / payload item), whatever it is called
-    cov = "Prefix::covers(self.prefix↓Some.0, MaxLenPrefix::prefix(%2.prefix))"
-    aeq = "Asn::eq(self.asn↓Some.0, %2.asn)"
-    specs = {
-        SL + "PrefixFilter::drop_origin": {
-            (("self.asn is Some", "self.prefix is Some"), cov + "∈[1,1]", "return " + aeq),
-            (("self.asn is Some", "self.prefix is Some"), cov + "∈[0,0]", "return 0"),
-            (("self.asn is None", "self.prefix is Some"), "", "return " + cov),
-            (("self.asn is Some", "self.prefix is None"), "", "return " + aeq),
-            (("self.asn is None", "self.prefix is None"), "", "return 0"),
-        },
-        SL + "BgpsecFilter::drop_router_key": {
-            (("self.asn is Some", "self.ski is Some"), "KeyIdentifier::eq(self.ski↓Some.0, %2.key_identifier)∈[1,1]", "return Asn::eq(self.asn↓Some.0, %2.asn)"),
-            (("self.asn is Some", "self.ski is Some"), "KeyIdentifier::eq(self.ski↓Some.0, %2.key_identifier)∈[0,0]", "return 0"),
-            (("self.asn is None", "self.ski is Some"), "", "return KeyIdentifier::eq(self.ski↓Some.0, %2.key_identifier)"),
-            (("self.asn is Some", "self.ski is None"), "", "return Asn::eq(self.asn↓Some.0, %2.asn)"),
-            (("self.asn is None", "self.ski is None"), "", "return 0"),
-        },
-        SL + "AspaFilter::drop_aspa": {
-            (("self.customer_asid is Some",), "", "return Asn::eq(self.customer_asid↓Some.0, %2.customer)"),
-            (("self.customer_asid is None",), "", "return 0"),
-        },
-        SL + "PrefixFilter::drop_payload": {
-            (("%2 is Origin",), "", "return PrefixFilter::drop_origin(self, %2↓Origin.0)"),
-            (("%2 is another variant",), "", "return 0"),
-        },
-        SL + "BgpsecFilter::drop_payload": {
-            (("%2 is RouterKey",), "", "return BgpsecFilter::drop_router_key(self, %2↓RouterKey.0)"),
-            (("%2 is another variant",), "", "return 0"),
-        },
-        SL + "AspaFilter::drop_payload": {
-            (("%2 is Aspa",), "", "return AspaFilter::drop_aspa(self, %2↓Aspa.0)"),
-            (("%2 is another variant",), "", "return 0"),
-        },
-    }
-    for fn, want in specs.items():
+    for fn, want in SPECS.items():
         b = f.body(fn)
         if b is None:
             ctx.missing("R-REG", short(fn), fn)
             continue
         ctx.saw_fn(fn)
-        paths, it, err = K.run_absint(f, fn)
-        if paths is None:
-            ctx.ob("R-REG", short(fn) + ":analysable", False, "cannot establish: " + err, where=b.loc)
+        ok, detail = table_verdict(f, fn, want)
+        if detail.get("analysable") is False:
+            ctx.ob("R-REG", short(fn) + ":analysable", False, "cannot establish: " + detail["error"], where=b.loc)
             continue
-        got = table_of(paths, b)
-        want = spec_table(want)
-        ctx.ob("R-REG", short(fn) + ":table", (got == want or tables_agree(got, want)) and not it.imprecise,
-               "%s has exactly the specified case table (%d rows)" % (short(fn), len(want)), where=b.loc,
-               detail={"unexpected_rows": sorted(map(list, got - want)), "missing_rows": sorted(map(list, want - got)),
-                       "imprecision": it.imprecise} if got != want or it.imprecise else {"rows": len(got)})
+        ctx.ob("R-REG", short(fn) + ":table", ok,
+               "%s has exactly the specified case table (%d rows)" % (short(fn), len(want)), where=b.loc, detail=detail)
     # the payload's variant order: "another variant" must not hide a second listed kind
     # (each drop_payload matches exactly one Payload variant: checked by the tables above)
 
